@@ -186,7 +186,7 @@ structure BEnd (list : List Sym) (body : List Nat) (p0 : Nat) (c0 : List Nat) (s
     (toEnd = true → p = body.length ∧ ∃ S, firstBigEnough list s'.cw.length = some S ∧ dataCw S = s'.cw.length) ∧
     (toEnd = false → (seg body p0 p).length ≤ 1555) ∧
     ((s'.mode = .ascii ∧ s'.plan = [(0, .ascii)] ∧ s'.newMode = none ∧ p = body.length) ∨
-     (toEnd = false ∧ s'.hasMore = true ∧ Pending s' ∧ PlanOK s'.plan))
+     (toEnd = false ∧ s'.hasMore = true ∧ Pending s' ∧ PlanOKE body s'.plan))
 
 theorem seg_length (body : List Nat) (p0 p : Nat) (h0 : p0 ≤ p) (h : p ≤ body.length) : (seg body p0 p).length = p - p0 := by
   unfold seg
@@ -252,7 +252,7 @@ def b256Tail (start f : Nat) (s : St) : Enc.R St :=
 theorem b256Loop_eq (start f : Nat) (s : St) : b256Loop start (f + 1) s = b256Tail start f (eatPush s) := rfl
 
 theorem b256Loop_gen (list : List Sym) (body : List Nat) (hb : ByteList body) (p0 : Nat) (c0 : List Nat) :
-    ∀ (n f : Nat) (s s' : St), body.length - s.pos = n → n < f → BInv list body p0 c0 s → PlanOK s.plan →
+    ∀ (n f : Nat) (s s' : St), body.length - s.pos = n → n < f → BInv list body p0 c0 s → PlanOKE body s.plan →
       (s.hasMore = true ∨ p0 < s.pos) → b256Loop (c0.length + 1) f s = .ok s' → BEnd list body p0 c0 s' := by
   intro n
   induction n using Nat.strongRecOn with
@@ -302,7 +302,8 @@ theorem b256Loop_gen (list : List Sym) (body : List Nat) (hb : ByteList body) (p
           cases bsw with
           | true =>
             simp only [] at h
-            obtain ⟨hP, hL, hPl⟩ := switched_ok s1 s3 inv1.newMode (by rw [hpl1]; exact hplan) hm
+            obtain ⟨hP, hL, hPl⟩ := switched_ok s1 s3 inv1.newMode (by rw [hpl1, inv1.input]; exact hplan) hm
+            rw [inv1.input] at hPl
             cases hw : b256WriteLength s3 (c0.length + 1) with
             | error e => rw [hw] at h; cases h
             | ok s4 =>
@@ -322,7 +323,7 @@ theorem b256Loop_gen (list : List Sym) (body : List Nat) (hb : ByteList body) (p
               refine ⟨s3.pos, toEnd, by rw [m2]; exact hb1, by rw [m2]; exact inv1.le, by rw [w1], by rw [w1],
                 by rw [w1]; exact m1.1.trans inv1.input, by rw [w1]; exact m1.2.trans inv1.list,
                 (fun ht => by rw [hte] at ht; cases ht), w3, Or.inr ⟨hte, hmore4, ?_, ?_⟩⟩
-              · rw [w1]; exact hP
+              · rw [w1]; exact hP.congr rfl rfl rfl rfl rfl
               · rw [w1]; exact hPl
           | false =>
             simp only [] at h
@@ -338,7 +339,7 @@ theorem b256Loop_gen (list : List Sym) (body : List Nat) (hb : ByteList body) (p
                 rw [inv.input] at this
                 exact absurd this hlt
             exact ih (body.length - s3.pos) (by rw [m2, hadv hlt]; omega) f s3 s' rfl (by rw [m2, hadv hlt]; omega) inv3
-              (fun e he => hplan e (by rw [← hpl1]; exact m4 e he)) (Or.inr (by rw [m2]; exact hb1)) h
+              (planOKE_maybeSwitch s1 s3 false hm (by rw [hpl1]; exact hplan)) (Or.inr (by rw [m2]; exact hb1)) h
       · have hmf : s1.hasMore = false := by simpa using hmore
         simp only [hmf, Bool.not_false, ↓reduceIte] at h
         cases hw : b256WriteLength s1 (c0.length + 1) with
